@@ -212,12 +212,23 @@ func genC12(r *Rng, tier string) *World {
 		}
 		genTests(r, &c, root)
 	}
+	var recPass *Node
 	hasStrList := r.P(0.1)
 	if hasStrList && root.Kind == "struct" && len(root.Fields) < 5 {
 		root.Fields = append(root.Fields, &Field{Key: "csv", N: &Node{Kind: "pre", CT: "str_list",
 			Elem: &Node{Kind: "slice", Elem: &Node{Kind: "string", Tests: []TestSpec{{T: "custom", Mod: 0, Code: "c0"}}}}}})
 	} else {
 		hasStrList = false
+	}
+	if root.Kind == "struct" && len(root.Fields) < 5 && r.P(0.12) {
+		// Preprocess in front of a nested record (parse only, like the list splitter)
+		cs := c
+		cs.MaxDepth = 3
+		cs.without("pre", "struct", "slice", "ptr", "custom")
+		inner := genKind(r, &cs, "struct", 2)
+		root.Fields = append(root.Fields, &Field{Key: "prec", N: &Node{Kind: "pre", CT: "rec_pass", Elem: inner}})
+		hasStrList = true // (parse-only world)
+		recPass = inner
 	}
 	w.Schemas = []*Node{root}
 	var ops []Op
@@ -232,7 +243,26 @@ func genC12(r *Rng, tier string) *World {
 			if missing {
 				v = VNil()
 			}
-			if hasStrList && v.K == "m" && r.P(0.8) {
+			if recPass != nil && v.K == "m" {
+				// the record for the preprocessed field (sometimes something that is no record at all)
+				var kept []KV
+				for _, kv := range v.M {
+					if kv.K != "prec" {
+						kept = append(kept, kv)
+					}
+				}
+				v.M = kept
+				if r.P(0.85) {
+					rv, miss := GenParseInput(r, &c, recPass)
+					if !miss {
+						if r.P(0.1) {
+							rv = Pick(r, []Val{VS("x"), VI(3), VL(VS("a"))})
+						}
+						v.M = append(v.M, KV{"prec", rv})
+					}
+				}
+			}
+			if hasStrList && recPass == nil && v.K == "m" && r.P(0.8) {
 				v.M = append(v.M, KV{"csv", Pick(r, []Val{VS("a,b"), VS("x"), VS("a,,b"), VS("ERR,1"), VS("a,b"), VI(65), VF(2.5), VB(true)})})
 			}
 			op.Input = v
@@ -292,6 +322,13 @@ func runC12(x *X) *Violation {
 		m := ModelFor(n, op, res)
 		if m.Desync {
 			x.Probes["model_desync"]++
+			if len(m.Abstain) == 0 {
+				// the library acts on the simulator's visit orders (calibrated, OrderControlled), yet the structs it visited in
+				// this call are not the structs the schema and the input call for: some node was skipped or visited twice
+				return &Violation{Class: "C12/struct-visits-differ-from-the-schema mode=" + op.Kind,
+					Detail: fmt.Sprintf("the execution visited %d struct(s) (%v); the schema and input call for another sequence; issues %v",
+						len(structVisits(res.Visits)), structVisits(res.Visits), res.PCTs())}
+			}
 		}
 		if v := checkCallbacks("C12", n, op, res, m); v != nil {
 			return v
